@@ -9,6 +9,15 @@
    both | nosw | exceeds:<max>),  nodereferences (tx|rx|acc:<node name>).  A text that matches none of
    the known patterns is a wildcard (position still compared), so rewording never raises an alarm.
 
+   cantool lint (CLI1 / CLIB / BATCH / CLIR lines): the real `cantool lint` binary was run on the file
+   (alone, or as a member of a directory batch). The expected standard output is computed with the
+   extracted [cantool_lint_output] (Dbc/LintCli.v): order of analyzers and diagnostics, file:line:col,
+   analyzer name, the SOURCE LINE of each diagnostic and the caret column, and the exit status
+   (0 / 1 "one or more lint errors" / 2 crash) all come from the model; only the message wording is
+   taken from the in-process run of the same analyzer (parse errors: from the in-process parser).
+   The comparison is byte-exact; a Go panic (exit status 2) is a violation with the file as replay.
+   In a batch the first file whose expected output is not found at its place is the culprit.
+
    unicode.IsDigit / unicode.IsUpper (parameters of the model) are filled from the tables the harness
    dumps from Go's unicode package (UNI lines); the ASCII part is fixed here and checked (UNIASCII). *)
 open Model
@@ -105,13 +114,26 @@ let classify (pass : string) (text : string) : string option =
 let string_of_hex (h : string) : string =
   String.init (String.length h / 2) (fun i -> Char.chr ((hexval h.[2 * i] * 16) + hexval h.[(2 * i) + 1]))
 
+let unhex (h : string) : string = if h = "-" then "" else string_of_hex h
+
 (* ---- current block *)
 let cur_n = ref "" and cur_cat = ref "" and cur_text = ref ""
 let parse_ok = ref false
 let dump : string list ref = ref []
 let data : z list ref = ref []
 let diag_lines : string list list ref = ref []
-let pure = ref "-" and order = ref "-" and cli : string option ref = ref None
+let pure = ref "-" and order = ref "-"
+let parse_err : (position * string) option ref = ref None
+
+(* ---- cantool lint *)
+type cli_obs = { c_exit : string; c_out : string; c_err : string }
+let cli_single : (string * cli_obs) option ref = ref None       (* path, observation *)
+let cli_batch : (string * string) option ref = ref None         (* batch id, path *)
+
+type expectation = { e_where : string; e_n : string; e_text : string; e_out : string; e_exit : string; e_nontrivial : bool }
+let batch_members : (string, expectation list) Hashtbl.t = Hashtbl.create 16   (* in reverse order *)
+let batch_obs : (string, cli_obs) Hashtbl.t = Hashtbl.create 16
+let batch_reruns : (string, (string * cli_obs) list) Hashtbl.t = Hashtbl.create 16
 
 let n_text_wild = ref 0
 
@@ -141,14 +163,182 @@ let render_model (ds : diagnostic list) : string =
 
 let cat_prefix c = match String.index_opt c ':' with Some i -> String.sub c 0 i | None -> c
 
+(* ---- rendering of the model's output items as the bytes cantool writes to standard output *)
+let string_of_bytes (b : z list) : string =
+  let buf = Buffer.create 64 in
+  List.iter (fun x -> Buffer.add_char buf (Char.chr (int_of_z x land 255))) b;
+  Buffer.contents buf
+
+let bytes_of_string (s : string) : z list = List.init (String.length s) (fun i -> z_of_int (Char.code s.[i]))
+
+let pkg_of_analyzer (a : analyzer) : string = fst (List.find (fun (_, a') -> a' = a) passes)
+
+(* text/scanner.Position.String() *)
+let position_string (name : z list) (p : position) : string =
+  let n = if name = [] then "<input>" else string_of_bytes name in
+  if int_of_z p.p_line > 0 then Printf.sprintf "%s:%d:%d" n (int_of_z p.p_line) (int_of_z p.p_column) else n
+
+(* [texts pass] = the message texts of the in-process run of that pass, in order; [parse_text] the
+   parser's reason *)
+let render_items (texts : string -> string list) (parse_text : string) (items : out_item list) : string =
+  let buf = Buffer.create 1024 in
+  let counters : (string, int) Hashtbl.t = Hashtbl.create 8 in
+  List.iter
+    (fun it ->
+      match it with
+      | OHeader (name, pos, pass, _m) ->
+          let text =
+            match pass with
+            | PParse -> parse_text
+            | PAnalyzer a ->
+                let pkg = pkg_of_analyzer a in
+                let k = try Hashtbl.find counters pkg with Not_found -> 0 in
+                Hashtbl.replace counters pkg (k + 1);
+                (match List.nth_opt (texts pkg) k with Some t -> t | None -> "<no such diagnostic in the in-process run>")
+          in
+          Buffer.add_string buf
+            (Printf.sprintf "\n%s: %s (%s)\n" (position_string name pos) text (string_of_bytes (pass_name pass)))
+      | OSourceLine l -> Buffer.add_string buf (string_of_bytes l); Buffer.add_char buf '\n'
+      | OCaret n -> Buffer.add_string buf (String.make (max 0 (int_of_z n)) ' '); Buffer.add_string buf "^\n")
+    items;
+  Buffer.contents buf
+
+let exit_of_status = function ExitOk -> "0" | ExitLintErrors -> "1" | Crash -> "2"
+
+let contains (hay : string) (needle : string) : bool =
+  try ignore (Str.search_forward (Str.regexp_string needle) hay 0); true with Not_found -> false
+
+let clip n s = if String.length s > n then String.sub s 0 n ^ "..." else s
+
+(* what is wrong with standard error, given the exit status (None = fine) *)
+let stderr_problem (exit : string) (err : string) : string option =
+  if exit = "0" then (if err = "" then None else Some "exit status 0 but standard error is not empty")
+  else if exit = "1" then
+    if contains err "panic" || contains err "goroutine " then Some "exit status 1 with a panic trace"
+    else if contains err "one or more lint errors" then None
+    else Some "exit status 1 without \"one or more lint errors\""
+  else None
+
+let cli_obs_string (e : expectation) (o : cli_obs) =
+  Printf.sprintf "%s cantool_lint exit=%s stdout=%s stderr=%s text=%s" e.e_where o.c_exit (hex_of_string o.c_out)
+    (hex_of_string (clip 400 o.c_err)) e.e_text
+
+let cli_model_string exit out = Printf.sprintf "exit=%s stdout=%s" exit (hex_of_string out)
+
+(* one file linted by one invocation *)
+let compare_single (e : expectation) (o : cli_obs) =
+  note_case ~nontrivial:e.e_nontrivial "cli" (Printf.sprintf "%s cantool_lint exit=%s stdout=%s" e.e_where o.c_exit (hex_of_string o.c_out));
+  if o.c_exit <> e.e_exit || o.c_out <> e.e_out then mismatch (cli_obs_string e o) (cli_model_string e.e_exit e.e_out)
+  else
+    match stderr_problem o.c_exit o.c_err with
+    | Some why -> pfail (cli_obs_string e o) ("cantool lint: " ^ why)
+    | None -> ()
+
+let is_prefix_at (hay : string) (pos : int) (p : string) : bool =
+  String.length hay - pos >= String.length p && String.sub hay pos (String.length p) = p
+
+(* a directory of files linted by one invocation: the output is the concatenation of the members' outputs (in
+   the lexical order of the file names = the order of the members), the exit status is 1 iff some member's is *)
+let finish_batch (id : string) =
+  let members = List.rev (try Hashtbl.find batch_members id with Not_found -> []) in
+  let reruns = List.rev (try Hashtbl.find batch_reruns id with Not_found -> []) in
+  (match Hashtbl.find_opt batch_obs id with
+  | None -> failwith ("BATCHEND without BATCH " ^ id)
+  | Some o ->
+      if reruns <> [] then begin
+        (* the batch run ended abnormally: the harness ran every member alone *)
+        let before = !n_mismatch in
+        List.iter
+          (fun e -> match List.assoc_opt e.e_n reruns with Some r -> compare_single e r | None -> failwith "member without rerun")
+          members;
+        if !n_mismatch = before then
+          match members with
+          | e :: _ ->
+              pfail (cli_obs_string { e with e_where = e.e_where ^ " (whole batch of " ^ string_of_int (List.length members) ^ " files)" } o)
+                "cantool lint terminates without panic on a directory of files each of which it lints without panic"
+          | [] -> ()
+      end
+      else begin
+        let pos = ref 0 and culprit = ref false in
+        List.iter
+          (fun e ->
+            if not !culprit then
+              if is_prefix_at o.c_out !pos e.e_out then begin
+                note_case ~nontrivial:e.e_nontrivial "cli" (Printf.sprintf "%s cantool_lint(batch) stdout=%s" e.e_where (hex_of_string e.e_out));
+                pos := !pos + String.length e.e_out
+              end
+              else begin
+                culprit := true;
+                let rest = String.sub o.c_out !pos (String.length o.c_out - !pos) in
+                mismatch
+                  (cli_obs_string e { o with c_out = clip (String.length e.e_out + 300) rest })
+                  (cli_model_string e.e_exit e.e_out ^ " (member of a directory batch: output expected at byte "
+                 ^ string_of_int !pos ^ " of the batch output)")
+              end)
+          members;
+        if not !culprit then begin
+          let want = if List.exists (fun e -> e.e_exit = "1") members then "1" else "0" in
+          let blame pred why =
+            match (List.filter pred members, members) with
+            | e :: _, _ | [], e :: _ -> pfail (cli_obs_string e { o with c_out = clip 300 o.c_out }) why
+            | [], [] -> ()
+          in
+          if !pos <> String.length o.c_out then
+            blame (fun _ -> false) "cantool lint on a directory prints nothing but the blocks of its *.dbc files"
+          else if o.c_exit <> want then
+            blame (fun e -> e.e_exit = "1")
+              ("cantool lint on a directory exits with status 1 iff some file has a diagnostic (expected " ^ want ^ ")")
+          else
+            match stderr_problem o.c_exit o.c_err with
+            | Some why -> blame (fun _ -> false) ("cantool lint: " ^ why)
+            | None -> ()
+        end
+      end);
+  Hashtbl.remove batch_members id; Hashtbl.remove batch_obs id; Hashtbl.remove batch_reruns id
+
+(* expectation for the current file linted under [path] *)
+let cli_expectation (where : string) (path : string) (parse : parse_result) (parse_text : string)
+    (texts : string -> string list) : expectation =
+  let input = { li_name = bytes_of_string path; li_source = data_of_hex !cur_text; li_parse = parse } in
+  let items, status = cantool_lint_output ud uu [ input ] in
+  (* cross-check of the extracted model with the extracted declarative description (equality is a theorem
+     for printable positions); on small files only: the specification reverses lists with the quadratic List.rev *)
+  if status <> Crash && String.length !cur_text <= 3000 then begin
+    let spec_items = file_blocks ud input in
+    let spec_status = if file_reports ud input then ExitLintErrors else ExitOk in
+    if items <> spec_items || status <> spec_status then
+      pfail (Printf.sprintf "%s text=%s" where !cur_text) "internal: extracted cantool model and its extracted specification differ"
+  end;
+  if status = Crash then
+    pfail (Printf.sprintf "%s text=%s" where !cur_text)
+      "cantool lint terminates without panic (the model crashes: a position to print lies outside the text, or an analyzer panics)";
+  { e_where = where; e_n = !cur_n; e_text = !cur_text; e_out = render_items texts parse_text items;
+    e_exit = exit_of_status status; e_nontrivial = items <> [] }
+
+let handle_cli (where : string) (parse : parse_result) (parse_text : string) (texts : string -> string list) =
+  (match !cli_single with
+  | Some (path, o) -> compare_single (cli_expectation where path parse parse_text texts) o
+  | None -> ());
+  match !cli_batch with
+  | Some (id, path) ->
+      let e = cli_expectation where path parse parse_text texts in
+      Hashtbl.replace batch_members id (e :: (try Hashtbl.find batch_members id with Not_found -> []))
+  | None -> ()
+
 let finish_block () =
   let synthetic = !cur_cat = "synthetic" in
   let where = Printf.sprintf "file=%s cat=%s" !cur_n !cur_cat in
-  if not !parse_ok then note_case ~nontrivial:false "parsefail" where
+  if not !parse_ok then begin
+    note_case ~nontrivial:false "parsefail" where;
+    match !parse_err with
+    | Some (pos, reason) -> handle_cli where (ParseError pos) reason (fun _ -> [])
+    | None -> if !cli_single <> None || !cli_batch <> None then failwith "CLI line without the parse error position"
+  end
   else begin
     let defs = defs_of_lines (List.rev !dump) in
     let f = { f_data = !data; f_defs = defs } in
-    let any_cli = ref false in
+    let texts_tbl : (string, string list) Hashtbl.t = Hashtbl.create 20 in
+    let model_counts : (string * int) list ref = ref [] in
     List.iter
       (fun toks ->
         match toks with
@@ -162,6 +352,8 @@ let finish_block () =
                   | _ -> failwith ("bad diagnostic item " ^ it))
                 items
             in
+            Hashtbl.replace texts_tbl pass
+              (List.map (fun it -> match String.split_on_char ':' it with [ _; _; t ] -> string_of_hex t | _ -> "") items);
             let impl_str =
               outcome ^ " "
               ^ String.concat " " (List.map (fun (l, c, k) -> Printf.sprintf "%s:%s:%s" l c (match k with Some k -> k | None -> "?")) impl)
@@ -173,7 +365,7 @@ let finish_block () =
             | Ok ds ->
                 note_case ~nontrivial:(ds <> []) pass (Printf.sprintf "%s pass=%s impl=%s" where pass impl_str);
                 if ds <> spec then pfail obs "internal: extracted model and extracted specification differ";
-                if ds <> [] && pass <> "boolprefix" then any_cli := true;
+                if pass <> "boolprefix" then model_counts := (pass, List.length ds) :: !model_counts;
                 if outcome <> "ok" then pfail obs ("analyzer terminates without error or panic (got " ^ outcome ^ ")")
                 else begin
                   let same =
@@ -189,7 +381,6 @@ let finish_block () =
                 end
             | Panic ->
                 note_case pass obs;
-                any_cli := true;
                 if outcome <> "panic" then report synthetic obs "panic")
         | _ -> failwith "bad DIAG line")
       (List.rev !diag_lines);
@@ -198,13 +389,22 @@ let finish_block () =
       pfail (Printf.sprintf "%s modified_by=%s text=%s" where !pure !cur_text) "analyzers do not modify the file";
     if !order <> "-" then
       pfail (Printf.sprintf "%s differs=%s text=%s" where !order !cur_text) "diagnostics do not depend on the order in which the passes run";
-    match !cli with
-    | None -> ()
-    | Some x ->
-        let expected = if !any_cli then "1" else "0" in
-        let obs = Printf.sprintf "%s cantool_lint_exit_nonzero=%s text=%s" where x !cur_text in
-        note_case ~nontrivial:(!any_cli) "cli" obs;
-        if x <> expected then mismatch obs ("exit status non-zero iff one of the 19 passes of cantool reports: " ^ expected)
+    if (!cli_single <> None || !cli_batch <> None) && hex_of_data !data <> !cur_text then
+      pfail (Printf.sprintf "%s text=%s" where !cur_text) "File.Data of the parsed file is the text that was parsed";
+    (* the generator's promises about its boundary files, confirmed with the model (kinds cli-only:<analyzer>,
+       cli-count:<n>; a broken promise is counted under generator-miss and reported by checks/lint.py) *)
+    let only_p = "boundary:only:" and count_p = "boundary:count:" in
+    if starts_with only_p !cur_cat then begin
+      match List.filter (fun (_, n) -> n > 0) !model_counts with
+      | [ (p, _) ] when p = after only_p !cur_cat -> note_case ("cli-only:" ^ p) where
+      | _ -> note_case ~nontrivial:false "generator-miss" where
+    end;
+    if starts_with count_p !cur_cat then begin
+      let total = List.fold_left (fun acc (_, n) -> acc + n) 0 !model_counts in
+      if Printf.sprintf "%x" total = after count_p !cur_cat then note_case (Printf.sprintf "cli-count:%d" total) where
+      else note_case ~nontrivial:false "generator-miss" where
+    end;
+    handle_cli where (Parsed defs) "" (fun pass -> try Hashtbl.find texts_tbl pass with Not_found -> [])
   end
 
 let bytes_of_tok = bytes_of_s
@@ -215,14 +415,22 @@ let handle line =
   match split_ws line with
   | "FILE" :: n :: cat :: rest ->
       cur_n := n; cur_cat := cat; cur_text := (match rest with [ t ] -> t | _ -> "");
-      parse_ok := false; dump := []; data := []; diag_lines := []; pure := "-"; order := "-"; cli := None
-  | [ "PARSE"; r ] -> parse_ok := r = "ok"
+      parse_ok := false; dump := []; data := []; diag_lines := []; pure := "-"; order := "-";
+      parse_err := None; cli_single := None; cli_batch := None
+  | [ "PARSE"; "ok" ] -> parse_ok := true
+  | [ "PARSE"; "err"; pos; reason ] -> parse_ok := false; parse_err := Some (pos_of pos, string_of_s reason)
   | ("DEF" | "SIG") :: _ -> dump := line :: !dump
   | "DATA" :: rest -> data := (match rest with [ h ] -> data_of_hex h | _ -> [])
   | "DIAG" :: toks -> diag_lines := toks :: !diag_lines
   | [ "PURE"; x ] -> pure := x
   | [ "ORDER"; x ] -> order := x
-  | [ "CLI"; x ] -> cli := Some x
+  | [ "CLI1"; path; exit; out; err ] -> cli_single := Some (unhex path, { c_exit = exit; c_out = unhex out; c_err = unhex err })
+  | [ "CLIB"; id; path ] -> cli_batch := Some (id, unhex path)
+  | [ "BATCH"; id; exit; out; err ] -> Hashtbl.replace batch_obs id { c_exit = exit; c_out = unhex out; c_err = unhex err }
+  | [ "CLIR"; id; n; exit; out; err ] ->
+      Hashtbl.replace batch_reruns id
+        ((n, { c_exit = exit; c_out = unhex out; c_err = unhex err }) :: (try Hashtbl.find batch_reruns id with Not_found -> []))
+  | [ "BATCHEND"; id ] -> finish_batch id
   | [ "END" ] -> finish_block ()
   | "UNI" :: which :: rs ->
       let tbl = if which = "digit" then digit_tbl else upper_tbl in
